@@ -19,8 +19,16 @@ EXTENDS Session, Json, SequencesExt
 CONSTANT TraceFile
 Trace == ndJsonDeserialize(TraceFile)
 
-VARIABLES l, s, skip
-vars == <<l, s, skip>>
+\* appr: a history monitor that does not depend on the specification state and therefore stays on while the rest of a scenario
+\* is skipped: has a Logon that could be approved at all (well formed; for an acceptor also with acceptable credentials, heartbeat
+\* interval and encryption method) been received since the session was created?  A session that reports itself logged on without
+\* one violates C06 whatever else went wrong before.
+VARIABLES l, s, skip, appr
+vars == <<l, s, skip, appr>>
+
+GoodLogon(c, a) ==
+  /\ a.a = "logon" /\ a.integ = "none" /\ a.sq = "ok"
+  /\ (c.role = "acceptor" => a.cred /\ a.hb >= c.hbMin /\ a.hb <= c.hbMax /\ a.enc \in c.allowed)
 
 Rej(prop, r, what, detail) ==
   PrintT("REJECT " \o ToJson(<<prop, r.id \o "#" \o ToString(r.i), what, detail>>))
@@ -81,6 +89,16 @@ LenientResendOk(sp, a, outs) ==
 
 AppendAll(sp, outs) == [sp EXCEPT !.sent = sp.sent \o [j \in 1..Len(outs) |-> AsMsg(outs[j])],
                                   !.lastOut = IF outs = <<>> THEN sp.lastOut ELSE sp.now]
+
+\* after a difference in the messages sent: the specification's state change, but the messages and numbers that were really sent, so
+\* that what the wrong step leads to later is still compared (and reported under the property it belongs to)
+RECURSIVE EmitObserved(_, _, _)
+EmitObserved(x, outs, j) ==
+  IF j > Len(outs) THEN x
+  ELSE LET m == AsMsg(outs[j])
+       IN EmitObserved(IF m.dupOf = 0 THEN Emit(x, m) ELSE [x EXCEPT !.sent = Append(x.sent, m)], outs, j + 1)
+Resync(x0, x1, outs) ==
+  EmitObserved([x1 EXCEPT !.sent = x0.sent, !.outSeq = x0.outSeq, !.store = x0.store, !.lastOut = x0.lastOut, !.lastOutBefore = x0.lastOutBefore], outs, 1)
 
 \* ---- monitors that hold in every step, whatever the action (evaluated on the observation) ----
 Allowed07 == {"A", "5", "3"}
@@ -166,11 +184,15 @@ StepResult(s0, r) ==
   IN
   IF a.a = "advance" THEN
      LET w == AdvWalk(x0, r, 1, DiscTime(r), r.t + a.ms)
+         m1 == IF r.logged # IsLogged(w.s)
+               THEN Rej(IF w.s.st = "DIS" \/ r.logged THEN "C09" ELSE "C06", r, "IsLogged differs after time passed", [got |-> r.logged, st |-> w.s.st])
+               ELSE TRUE
+         m2 == IF r.ctx # w.s.ctxDone
+               THEN Rej(IF s0.stopAt >= 0 THEN "C15" ELSE "C09", r, "session context state differs after time passed",
+                        [got |-> r.ctx, expected |-> w.s.ctxDone, stopAt |-> s0.stopAt, tEnd |-> r.t + a.ms])
+               ELSE TRUE
      IN IF ~w.ok THEN w
-        ELSE IF r.logged # IsLogged(w.s) THEN Bad(x0, IF w.s.st = "DIS" \/ r.logged THEN "C09" ELSE "C06", r, "IsLogged differs after time passed", [got |-> r.logged, st |-> w.s.st])
-        ELSE IF r.ctx # w.s.ctxDone THEN Bad(x0, IF s0.stopAt >= 0 THEN "C15" ELSE "C09", r, "session context state differs after time passed",
-                                             [got |-> r.ctx, expected |-> w.s.ctxDone, stopAt |-> s0.stopAt, tEnd |-> r.t + a.ms])
-        ELSE w
+        ELSE [s |-> w.s, ok |-> (m1 \in BOOLEAN) /\ (m2 \in BOOLEAN)]
   ELSE
      LET inbound == a.a \in {"logon", "logout", "hbt", "testreq", "resend", "app", "unknown"}
          sp == IF inbound THEN PreDispatch(x0, a) ELSE x0
@@ -194,37 +216,54 @@ StepResult(s0, r) ==
          tag == TagOf(x0, a, IF gapOnly THEN "gap" ELSE "x")
          evOk == (s0.stopAt >= 0 \/ a.a = "stop")   \* Stop() clears every registered callback, the harness' too
                    \/ EvNames(r.events) = SelectSeq(SubSeq(x1.events, Len(x0.events) + 1, Len(x1.events)), LAMBDA e : e \in WatchedEvents)
+         \* Observations that do not feed back into what the specification expects next (IsLogged, the context, the notifications) are
+         \* reported and the walk CONTINUES with the specification's state: what a wrong state leads to later (a second Logout, a
+         \* disconnect one period early) is then reported under the property it belongs to.  After a difference in the messages sent
+         \* the walk continues from the specification's state with the observed messages (Resync).
+         n1 == IF r.logged /\ ~IsLogged(x1)
+               THEN Rej("C06", r, "session reports itself logged on without a valid Logon exchange",
+                        [action |-> a.a, st |-> x0.st, got |-> r.logged, expected |-> IsLogged(x1), outs |-> BriefSeq(r.outs),
+                         afterStaleTestRequest |-> x0.staleTR])
+               ELSE TRUE
+         \* "any inbound message of any type cancels the pending disconnect": the session is logged on again
+         n2 == IF ~r.logged /\ IsLogged(x1)
+               THEN Rej(IF x0.st = "WTR" /\ inbound THEN "C09" ELSE IF tag \in {"C14", "C10", "C05", "C07"} THEN "C06" ELSE tag, r, "IsLogged differs",
+                        [action |-> a.a, st |-> x0.st, got |-> r.logged, expected |-> IsLogged(x1)])
+               ELSE TRUE
+         n3 == IF r.ctx # x1.ctxDone
+               THEN Rej(IF x0.stopAt >= 0 \/ a.a = "stop" THEN "C15" ELSE "C16", r, "session context state differs",
+                        [action |-> a.a, st |-> x0.st, got |-> r.ctx, expected |-> x1.ctxDone, stopAt |-> x0.stopAt, now |-> x0.now])
+               ELSE TRUE
+         n4 == IF ~evOk
+               THEN Rej(IF a.a \in {"logout", "llogout", "stop"} THEN "C15" ELSE "C06", r, "notifications differ",
+                        [action |-> a.a, got |-> EvNames(r.events), st |-> x0.st])
+               ELSE TRUE
      IN IF ~Monitor(x0, x1, r) THEN [s |-> x1, ok |-> FALSE]
-        ELSE IF r.logged /\ ~IsLogged(x1) THEN
-               Bad(x0, "C06", r, "session reports itself logged on without a valid Logon exchange",
-                   [action |-> a.a, st |-> x0.st, got |-> r.logged, expected |-> IsLogged(x1), outs |-> BriefSeq(r.outs),
-                    afterStaleTestRequest |-> x0.staleTR])
-        ELSE IF ~MatchSeq(exp, r.outs) THEN
-               Bad(x0, tag, r, "messages sent in response differ",
-                   [action |-> a.a, integ |-> a.integ, sq |-> a.sq, st |-> x0.st, expected |-> BriefSeq(exp), got |-> BriefSeq(r.outs)])
-        ELSE IF r.logged # IsLogged(x1) THEN
-               Bad(x0, IF tag \in {"C14", "C10", "C05", "C07"} THEN "C06" ELSE tag, r, "IsLogged differs",
-                   [action |-> a.a, st |-> x0.st, got |-> r.logged, expected |-> IsLogged(x1)])
-        ELSE IF r.ctx # x1.ctxDone THEN
-               Bad(x0, IF x0.stopAt >= 0 \/ a.a = "stop" THEN "C15" ELSE "C16", r, "session context state differs",
-                   [action |-> a.a, st |-> x0.st, got |-> r.ctx, expected |-> x1.ctxDone, stopAt |-> x0.stopAt, now |-> x0.now])
-        ELSE IF ~evOk THEN
-               Bad(x0, IF a.a \in {"logout", "llogout", "stop"} THEN "C15" ELSE "C06", r, "notifications differ",
-                   [action |-> a.a, got |-> EvNames(r.events), st |-> x0.st])
-        ELSE [s |-> x1, ok |-> TRUE]
+        ELSE IF (n1 \in BOOLEAN) /\ ~MatchSeq(exp, r.outs) THEN
+               [s |-> Resync(x0, x1, r.outs),
+                ok |-> Rej(tag, r, "messages sent in response differ",
+                           [action |-> a.a, integ |-> a.integ, sq |-> a.sq, st |-> x0.st, expected |-> BriefSeq(exp), got |-> BriefSeq(r.outs)])
+                       /\ (n2 \in BOOLEAN) /\ (n3 \in BOOLEAN) /\ (n4 \in BOOLEAN)]
+        ELSE [s |-> x1, ok |-> (n2 \in BOOLEAN) /\ (n3 \in BOOLEAN) /\ (n4 \in BOOLEAN)]
 
 Dummy == InitState([role |-> "acceptor", hbMin |-> 1, hbMax |-> 1, hbCfg |-> 1, encCfg |-> "0", allowed |-> {"0"}, closeMs |-> 0, startSeq |-> 0])
 
-Init == l = 1 /\ s = Dummy /\ skip = FALSE
+Init == l = 1 /\ s = Dummy /\ skip = FALSE /\ appr = FALSE
 
 Next ==
   /\ l <= Len(Trace)
   /\ l' = l + 1
   /\ LET r == Trace[l]
-     IN IF r.k = "init" THEN s' = InitState(CfgOf(r.cfg)) /\ skip' = FALSE
-        ELSE IF skip THEN UNCHANGED <<s, skip>>
-        ELSE LET res == StepResult(s, r)
-             IN s' = res.s /\ skip' = ~res.ok
+     IN IF r.k = "init" THEN s' = InitState(CfgOf(r.cfg)) /\ skip' = FALSE /\ appr' = FALSE
+        ELSE /\ appr' = (appr \/ GoodLogon(s.cfg, r.a))
+             /\ IF skip
+                THEN /\ UNCHANGED <<s, skip>>
+                     /\ ((IF r.logged /\ ~appr'
+                          THEN Bad(s, "C06", r, "session reports itself logged on although no Logon that could be approved was ever received",
+                                   [action |-> r.a.a, afterEarlierRejection |-> TRUE]).ok
+                          ELSE TRUE) \in BOOLEAN)
+                ELSE LET res == StepResult(s, r)
+                     IN s' = res.s /\ skip' = ~res.ok
 
 Spec == Init /\ [][Next]_vars
 
